@@ -25,6 +25,13 @@ BATCHES = {
     "bm2": ["CC(=O)OCC>>CCO", "CC.O", "CCO>>CCO"],
     "bm3": ["CC(=O)OCC>>CCO", "CCO>>CCO", "C(C>>CC"],
     "bm4": ["CCC(=O)OC>>CO", "CCO", "CCO", "CCC(=O)OC>>CO"],
+    # near-twins that any normalisation of the key would conflate: mirror images, another atom order / molecule
+    # order, atom-mapped spelling
+    "bs1": ["N[C@@H](C)C(=O)OC>>N[C@@H](C)C(=O)O", "C[C@H](O)CC(=O)OCC>>C[C@H](O)CC(=O)O"],
+    "bs2": ["N[C@H](C)C(=O)OC>>N[C@H](C)C(=O)O", "C[C@@H](O)CC(=O)OCC>>C[C@@H](O)CC(=O)O"],
+    "bo1": ["CC(=O)OCC>>CCO", "CCBr.[OH-]>>CCO"],
+    "bo2": ["CCOC(C)=O>>OCC", "[OH-].BrCC>>OCC"],
+    "bo3": ["[CH3:1][C:2](=[O:3])[O:4][CH2:5][CH3:6]>>[CH3:6][CH2:5][OH:4]", "CCBr.[OH-]>>CCO"],
 }
 # rows that carry further columns (a previous run's output fed back in, a CSV with metadata): the columns the
 # pipeline passes through (confidence, rules, issue, solved_by) are part of what a run returns
